@@ -132,17 +132,19 @@ PROPS = {
     },
     "C13": {
         "kani": [],
-        "verus": ["R", "Q"],
+        "verus": ["R", "Q", "W"],
         "audits": ["slab"],
         "trusted_base": ["Verus 0.2026.09.13 + Z3 (units R and Q)"],
         "assumptions": [
             "slab contracts and lock erasure as for C09",
             "unit Q: Command::run_task's verdict is taken as given (havoc contract): Completed/Cancelled mean the task can never run again; QueuingExecutor::run_task is extracted and proved (a completed task frees its slot)",
             "unit Q: a Task taken from the spawn queue is a task the command has not held before (moved, never cloned)",
+            "unit W: CLEARED_TIMER_IDS is a ghost set (HashSet::remove assumed), the inner shell-request future does not touch it",
         ],
         "not_decided": [
             "that dropping the removed Task drops everything it captured (Rust drop glue)",
-            "Core field drop order; the global cleared-timer set (cross-call history, F8)",
+            "Core field drop order",
+            "the cleared-timer set across calls: unit W proves that polling a timer future takes exactly its own id out of the set; an id cleared after its future is gone stays (F8, cross-call history) and Time::clear itself is an async block",
         ],
     },
     "C01": {
